@@ -27,6 +27,11 @@ from typing import Any, Dict, List, Optional, Set, Tuple
 from .model import FuncInfo, Repo, norm
 
 _ARRAY_WORDS = ("ndarray", "NDArray", "ArrayLike")
+_FRAME_WORDS = ("DataFrame", "Series")
+# accessors of a pandas object whose result may share memory with it (a float column's to_numpy() is a view of the block)
+_FRAME_ARRAY_CALLS = ("to_numpy", "to_records", "view")
+_FRAME_ARRAY_ATTRS = ("values", "array")
+_FRAME_VIEW_ATTRS = ("loc", "iloc", "at", "iat", "T")
 _MAKERS = ("array", "asarray", "zeros", "ones", "empty", "cross", "mean", "sum", "dot", "stack", "vstack", "hstack", "concatenate", "linspace", "arange", "full")
 # calls whose result may share memory with their (first) argument
 _VIEWS = ("asarray", "asanyarray", "ascontiguousarray", "atleast_1d", "atleast_2d", "squeeze", "ravel", "reshape", "view", "transpose", "swapaxes", "flatten_view")
@@ -77,7 +82,10 @@ class _Origins:
         for p in a.posonlyargs + a.args + a.kwonlyargs:
             if _mentions_array(p.annotation):
                 self.origin[p.arg] = (f"the array parameter `{p.arg}`", "parameter", "array")
+            elif p.annotation is not None and any(w in ast.unparse(p.annotation) for w in _FRAME_WORDS):
+                self.origin[p.arg] = (f"the DataFrame / Series parameter `{p.arg}`", "parameter", "frame")
         self.found: List[Tuple[ast.AST, str, str, str, str]] = []
+        self.returned = {r.value.id for r in ast.walk(fi.node) if isinstance(r, ast.Return) and isinstance(r.value, ast.Name)}
 
     def classify(self, e: Optional[ast.AST]) -> Optional[Tuple[str, str, str]]:
         if e is None:
@@ -87,6 +95,10 @@ class _Origins:
         if isinstance(e, ast.Attribute):
             if e.attr in self.attrs:
                 return (norm(e), e.attr, "array")
+            if e.attr in _FRAME_ARRAY_ATTRS or e.attr in _FRAME_VIEW_ATTRS:
+                o = self.classify(e.value)
+                if o is not None and o[2] == "frame":
+                    return (f"{norm(e)} (shares memory with {o[0]})", o[1], "array" if e.attr in _FRAME_ARRAY_ATTRS else "frame")
             if e.attr in _VIEW_ATTRS:
                 return self.classify(e.value)
             return None
@@ -94,6 +106,8 @@ class _Origins:
             o = self.classify(e.value)
             if o is None:
                 return None
+            if o[2] == "frame":
+                return (f"{norm(e)} (a column / selection of {o[0]})", o[1], "frame")
             if o[2] == "container" and not isinstance(e.slice, ast.Slice):
                 return (f"{norm(e)} (an element of {o[0]})", o[1], "array")  # an element of a list of borrowed arrays is that array
             return o  # basic indexing of an array gives a view; a slice of a container is a container of the same arrays
@@ -114,6 +128,15 @@ class _Origins:
             return self.classify(e.value)
         if isinstance(e, ast.Call):
             f = e.func
+            if isinstance(f, ast.Attribute) and f.attr in _FRAME_ARRAY_CALLS:
+                o = self.classify(f.value)
+                copies = any(k.arg == "copy" and isinstance(k.value, ast.Constant) and k.value.value is True for k in e.keywords)
+                if o is not None and o[2] == "frame" and not copies:
+                    return (f"{norm(e)[:60]} (for a numeric column a view of the data of {o[0]}, not a copy)", o[1], "array")
+            if isinstance(f, ast.Attribute) and f.attr in _VIEWS and isinstance(f.value, ast.Name) and f.value.id in ("np", "numpy") and e.args:
+                o = self.classify(e.args[0])
+                if o is not None and o[2] == "frame":
+                    return (f"{norm(e)[:60]} (shares memory with {o[0]})", o[1], "array")
             if isinstance(f, ast.Attribute) and f.attr in _VIEWS:
                 if isinstance(f.value, ast.Name) and f.value.id in ("np", "numpy"):
                     return self.classify(e.args[0]) if e.args else None
@@ -145,7 +168,7 @@ class _Origins:
                         inner = inner.value
                     o = self.classify(inner) if (isinstance(node, ast.AugAssign) or inner is not target) else None
                     shown = inner
-            if o is not None and o[2] == "array":
+            if o is not None and (o[2] == "array" or (o[2] == "frame" and o[1] != "own-result" and not isinstance(target, ast.Name))):
                 self.found.append((node, norm(shown), o[0], o[1], op))
 
     def visit(self, stmts: List[ast.stmt]) -> None:
@@ -173,6 +196,9 @@ class _Origins:
                         self.write(st, t, f"`{norm(st)[:60]}` stores into")
                     elif isinstance(t, ast.Name):
                         o = self.classify(st.value)
+                        if o is None and t.id in self.returned and isinstance(st.value, ast.Call) and isinstance(st.value.func, ast.Attribute) and st.value.func.attr in _FRAME_WORDS:
+                            # the table this function builds and returns: filling it is its job, but an array that shares its memory is still the result
+                            o = (f"the table `{t.id}` this function builds and returns", "own-result", "frame")
                         if o is not None:
                             self.origin[t.id] = o
                         else:
